@@ -57,6 +57,56 @@ MUTANTS = [
     (T, "TEBD.sweep", "sites = (self.L - 1, 0)\n                    U = self._get_gate_from_ham(dt_frac, sites)\n                    self._pt.right_canonize_site(1)",
      "sites = (0, self.L - 1)\n                    U = self._get_gate_from_ham(dt_frac, sites)\n                    self._pt.right_canonize_site(1)", "expect-fail"),
     (T, "TEBD.sweep", "            start_site_ind = 0\n            final_site_ind = self.L - 1\n", "            start_site_ind = 0\n            final_site_ind = self.L - 2\n", "expect-fail"),
+    # ---- TEBD._get_gate_from_ham
+    (T, "TEBD._get_gate_from_ham", "imag_factor = 1.0 if self.imag else 1.0j", "imag_factor = 1.0j if self.imag else 1.0", "expect-fail"),
+    (T, "TEBD._get_gate_from_ham", "-imag_factor * self._dt * dt_frac", "imag_factor * self._dt * dt_frac", "expect-fail"),
+    (T, "TEBD._get_gate_from_ham", "-imag_factor * self._dt * dt_frac", "-imag_factor * self.dt * dt_frac", "expect-fail"),
+    (T, "TEBD._get_gate_from_ham", "-imag_factor * self._dt * dt_frac", "-imag_factor * self._dt", "expect-fail"),
+    (T, "TEBD._get_gate_from_ham", "self.H.get_gate_expm(sites, ", "self.H.get_gate_expm(sites[::-1], ", "expect-fail"),
+    # ---- TEBD.choose_time_step
+    (T, "TEBD.choose_time_step", "(tol / (T * self._ham_norm)) ** (1 / order)", "(tol / (T * self._ham_norm)) ** (1 / (order + 1))", "expect-fail"),
+    (T, "TEBD.choose_time_step", "(tol / (T * self._ham_norm)) ** (1 / order)", "(tol / (T + self._ham_norm)) ** (1 / order)", "expect-fail"),
+    (T, "TEBD.choose_time_step", "(tol / (T * self._ham_norm)) ** (1 / order)", "(T / (tol * self._ham_norm)) ** (1 / order)", "expect-fail"),
+    (T, "TEBD.choose_time_step", "(tol / (T * self._ham_norm)) ** (1 / order)", "(tol / (T * self._ham_norm)) ** order", "expect-fail"),
+    # ---- TEBD._compute_sweep_dt_tol
+    (T, "TEBD._compute_sweep_dt_tol", "dt = self.dt if (dt is None) else dt", "dt = self.dt if (dt is not None) else dt", "expect-fail"),
+    (T, "TEBD._compute_sweep_dt_tol", "if not (dt or tol):", "if not (dt and tol):", "expect-fail"),
+    (T, "TEBD._compute_sweep_dt_tol", "        if dt and tol:\n            raise ValueError(\"Can't set both ``dt`` and ``tol``.\")\n\n        if dt is None:",
+     "        if dt is None:", "expect-fail"),
+    (T, "TEBD._compute_sweep_dt_tol", "self._dt = self.choose_time_step(tol, T - self.t, order)", "self._dt = self.choose_time_step(tol, T, order)", "expect-fail"),
+    (T, "TEBD._compute_sweep_dt_tol", "        else:\n            self._dt = dt\n\n        return self._dt", "        else:\n            self._dt = dt\n\n        return dt", "expect-fail"),
+    (T, "TEBD._compute_sweep_dt_tol", "        else:\n            self._dt = dt\n\n        return self._dt", "        else:\n            self.dt = dt\n\n        return self._dt", "expect-fail"),
+    (T, "TEBD._compute_sweep_dt_tol", "tol = self.tol if (tol is None) else tol", "tol = self.tol", "expect-fail"),
+    # ---- TEBD.step
+    (T, "TEBD.step", "self.t += dt\n", "self.t += self._dt\n", "expect-fail"),
+    (T, "TEBD.step", "self._err += self._ham_norm * dt ** (order + 1)", "self._err += self._ham_norm * dt ** order", "expect-fail"),
+    (T, "TEBD.step", "self._err += self._ham_norm * dt ** (order + 1)", "self._err = self._ham_norm * dt ** (order + 1)", "expect-fail"),
+    (T, "TEBD.step", 'directions = ("right", "left")', 'directions = ("left", "right")', "expect-fail"),
+    (T, "TEBD.step", "self.sweep(directions[k], frac, dt=dt, **sweep_opts)", "self.sweep(directions[k], frac, **sweep_opts)", "expect-fail"),
+    (T, "TEBD.step", "self.sweep(directions[k], frac, dt=dt, **sweep_opts)", "self.sweep(directions[k], frac, dt=dt)", "expect-fail"),
+    (T, "TEBD.step", "for k, frac in trotter_schedule(2, order=order):", "for k, frac in trotter_schedule(2, order=2):", "expect-fail"),
+    (T, "TEBD.step", "dt = self._dt if dt is None else dt\n        self.t += dt", "dt = self.dt if dt is None else dt\n        self.t += dt", "expect-fail"),
+    (T, "TEBD.step", "self.sweep(directions[k], frac, dt=dt, **sweep_opts)", "self.sweep(directions[k], 1.0, dt=dt, **sweep_opts)", "expect-fail"),
+    # ---- TEBD.update_to
+    (T, "TEBD.update_to", "while self.t < T - self._dt:", "while self.t < T:", "expect-fail"),
+    (T, "TEBD.update_to", "while self.t < T - self._dt:", "while self.t < T - 2 * self._dt:", "expect-fail"),
+    (T, "TEBD.update_to", "dt=T - self.t, queue=False", "dt=T - self.t, queue=True", "expect-fail"),
+    (T, "TEBD.update_to", "dt=T - self.t, queue=False", "dt=self._dt, queue=False", "expect-fail"),
+    (T, "TEBD.update_to", "self.step(order=order, progbar=progbar, dt=None, queue=True)", "self.step(order=2, progbar=progbar, dt=None, queue=True)", "expect-fail"),
+    (T, "TEBD.update_to", "if T < self.t - self.TARGET_TOL:", "if T < self.t + self.TARGET_TOL:", "expect-fail"),
+    (T, "TEBD.update_to", "self._compute_sweep_dt_tol(T, dt, tol, order)", "self._compute_sweep_dt_tol(T, dt, None, order)", "expect-fail"),
+    (T, "TEBD.update_to", "self.step(order=order, progbar=progbar, dt=None, queue=True)", "self.step(order=order, progbar=progbar, dt=self._dt / 2, queue=True)", "expect-fail"),
+    (T, "TEBD.update_to", "        # always perform final sweep with queue draining\n        self.step(order=order, progbar=progbar, dt=T - self.t, queue=False)", "        pass", "expect-fail"),
+    (T, "TEBD.update_to", "self.step(order=order, progbar=progbar, dt=None, queue=True)", "self.step(order=order, progbar=progbar, dt=None, queue=False)", "expect-fail"),
+    # ---- TEBD.at_times
+    (T, "TEBD.at_times", "ts = sorted(ts)\n", "ts = list(ts)\n", "expect-fail"),
+    (T, "TEBD.at_times", "T = ts[-1]", "T = ts[0]", "expect-fail"),
+    (T, "TEBD.at_times", "self.update_to(t, dt=dt, tol=False, order=order, progbar=False)", "self.update_to(T, dt=dt, tol=False, order=order, progbar=False)", "expect-fail"),
+    (T, "TEBD.at_times", "self.update_to(t, dt=dt, tol=False, order=order, progbar=False)", "self.update_to(t, dt=dt, tol=tol, order=order, progbar=False)", "expect-fail"),
+    (T, "TEBD.at_times", "            yield self.pt", "            yield self._pt", "expect-fail"),
+    (T, "TEBD.at_times", "            yield self.pt", "        yield self.pt", "expect-fail"),
+    (T, "TEBD.at_times", "self.update_to(t, dt=dt, tol=False, order=order, progbar=False)", "self.update_to(t, dt=dt / 2, tol=False, order=order, progbar=False)", "expect-fail"),
+    (T, "TEBD.at_times", "self.update_to(t, dt=dt, tol=False, order=order, progbar=False)\n", "yield self.pt\n            self.update_to(t, dt=dt, tol=False, order=order, progbar=False)\n", "expect-fail"),
 ]
 
 
